@@ -299,7 +299,20 @@ theorem roundtrip_mp (p : SessParams) (r : RouteReq) (nh : Bytes) (hs : WFSess p
 
 /-- Everything the partial theorem asks of the next hop (each line is an open finding, see `Props/C01`). -/
 def NextHopOk (p : SessParams) (r : RouteReq) : Prop :=
-  ∃ nh, resolveNh p r = some nh ∧ NhFamilyOk p r nh ∧ NoVpnLinkLocal p r nh ∧ SelfOk p r
+  ∃ nh, resolveNh p r = some nh ∧ (nhFamilyGuard = false → NhFamilyOk p r nh) ∧ NoVpnLinkLocal p r nh ∧ SelfOk p r
+
+theorem nhFamilyOk_of_B (p : SessParams) (r : RouteReq) (nh : Bytes) (ha : r.afi = 1 ∨ r.afi = 2)
+    (h : nhFamilyOkB p r nh = true) : NhFamilyOk p r nh := by
+  unfold nhFamilyOkB at h
+  rcases ha with ha | ha
+  · simp only [ha, show ((1 : Nat) == 2) = false by decide, Bool.false_eq_true, if_false, Bool.or_eq_true,
+      Bool.and_eq_true, beq_iff_eq] at h
+    refine ⟨fun _ => ?_, fun h2 => by omega⟩
+    rcases h with h | ⟨h1, h2⟩
+    · exact Or.inl h
+    · exact Or.inr ⟨h1, by rw [ha]; exact h2⟩
+  · simp only [ha, show ((2 : Nat) == 2) = true by decide, if_true, beq_iff_eq] at h
+    exact ⟨fun h1 => by omega, fun _ => h⟩
 
 theorem mpReach_len (p : SessParams) (r : RouteReq) (nh : Bytes) :
     (mpReach p r nh).length = (mpPayload p r nh).length + (if (mpPayload p r nh).length > 255 then 4 else 3) := by
@@ -315,13 +328,25 @@ def sentSem (p : SessParams) (r : RouteReq) (nh : Bytes) : UpdateSem :=
   if classic r nh then ⟨[], semAll p r nh, [wantNlri p r]⟩ else ⟨[], semAll p r nh ++ [mpAttr p r nh], []⟩
 
 theorem roundtrip_sent (p : SessParams) (r : RouteReq) (bs : Bytes) (nh : Bytes) (hs : WFSess p) (hw : WFReq p r)
-    (hnh : resolveNh p r = some nh) (hfam : NhFamilyOk p r nh) (hll : NoVpnLinkLocal p r nh) (hself : SelfOk p r)
+    (hnh : resolveNh p r = some nh) (hfam0 : nhFamilyGuard = false → NhFamilyOk p r nh)
+    (hll : NoVpnLinkLocal p r nh) (hself : SelfOk p r)
     (hsent : encodeExa p r = .sent bs) :
     decodeUpdate (paramsOf p) bs = .ok (sentSem p r nh) ∧ Meets p r (sentSem p r nh) := by
   have hm : p.msgSize ≤ 65535 := hs.2.2.2.2.2.1
   unfold encodeExa at hsent
   rw [hnh] at hsent
   simp only [defaultPathRaises_false, Bool.false_eq_true, if_false] at hsent
+  -- the next hop family: checked by the code (when the tree has the check), else assumed
+  by_cases cg : (nhFamilyGuard && !(nhFamilyOkB p r nh)) = true
+  · simp [cg] at hsent
+  have cg' : (nhFamilyGuard && !(nhFamilyOkB p r nh)) = false := by simpa using cg
+  simp only [cg', Bool.false_eq_true, if_false] at hsent
+  have hfam : NhFamilyOk p r nh := by
+    by_cases hg : nhFamilyGuard = true
+    · rw [hg] at cg'
+      simp only [Bool.true_and, Bool.not_eq_false'] at cg'
+      exact nhFamilyOk_of_B p r nh hw.1 cg'
+    · exact hfam0 (by simpa using hg)
   by_cases c1 : p.msgSize < 23 + (attrBytes p r nh).length
   · simp [c1] at hsent
   simp only [c1, if_false] at hsent
